@@ -57,7 +57,7 @@ def is_width(term, v, conds=()):
     return True
 
 
-def decoder_total(ctx, rule, inst, o, inp, allowed, site=None, outs=()):
+def decoder_total(ctx, rule, inst, o, inp, allowed, site=None, outs=(), width=None):
     """The decoder must accept every output of the encoder: a condition on its accepting path that
     mentions the input may only be one of the listed range/type checks, a width check (any
     comparison with len(input); exactness is the -width rule's business), or a mere branch (the
@@ -68,6 +68,13 @@ def decoder_total(ctx, rule, inst, o, inp, allowed, site=None, outs=()):
     for i, (t, p) in enumerate(mine):
         if not any(x == inp for x in subterms(t)):
             continue
+        if width is not None and any(is_app(x, "len") and x.args == (inp,) for x in subterms(t)):
+            # a length condition must hold for the width the encoder produces
+            from ..terms import subst
+            r = subst(t, {mk_app("len", (inp,)): width})
+            if isinstance(r, Const) and bool(r.v) != p:
+                extra.append(show(t, maxdepth=4) + "=" + str(p) + " (false for the encoder's own width %s)" % show(width, maxdepth=3))
+                continue
         if (t, p) in allowed or is_app(t, "isinstance"):
             continue
         if is_app(t, "Eq", "NotEq", "Lt", "LtE", "Gt", "GtE") and any(is_app(a, "len") for a in t.args):
@@ -97,7 +104,7 @@ def util(ctx, world, ev):
     # encoder
     outs = ev.run(n2b, [num, maxval], [], world.static.fork())
     rets = session.rets(outs)
-    ctx.require(rets, "number_to_bytes has no returning path")
+    ctx.total(rets, outs, "K-total", "number_to_bytes has no returning path")
     for o in rets:
         ok = is_app(o.value, "int2be") and o.value.args[0] == num and is_width(o.value.args[1], maxval, conds_of(o))
         ctx.ob("K1-encoder", "number_to_bytes", ok, "big-endian, exactly size_bytes(maxval) bytes: int2be(num, size_bytes(maxval))" if ok else
@@ -142,7 +149,7 @@ def integer_group(ctx, world, ev):
         i = Sym("i", "int")
         outs = ev.run_method(g, meth_enc, [i], st=st.fork())
         rets = session.rets(outs)
-        ctx.require(rets, "%s.%s has no returning path" % (gname, meth_enc))
+        ctx.total(rets, outs, "K-total", "%s.%s has no returning path" % (gname, meth_enc))
         wf = gm.attr_of(ev, g, wfield, st)
         for o in rets:
             extra = [show(t, maxdepth=4) + "=" + str(p) for (t, p, _) in o.state.pc if any(x == i for x in subterms(t))
@@ -160,7 +167,7 @@ def integer_group(ctx, world, ev):
         b = Sym("b", "bytes")
         outs = ev.run_method(g, meth_dec, [b], st=st.fork())
         rets = session.rets(outs)
-        ctx.require(rets, "%s.%s has no returning path" % (gname, meth_dec))
+        ctx.total(rets, outs, "K-total", "%s.%s has no returning path" % (gname, meth_dec))
         for o in rets:
             ok = o.value == mk_app("be2int", (b,))
             ctx.ob("K2-decoder", "%s.%s" % (gname, meth_dec), ok, "big-endian integer (inverse of the encoder on [0, q))" if ok else
@@ -170,7 +177,7 @@ def integer_group(ctx, world, ev):
                        (mk_app("LtE", (Const(0), i_)), True), (mk_app("Lt", (i_, mod_sym)), True), (mk_app("GtE", (i_, Const(0))), True),
                        (mk_app("GtE", (i_, mod_sym)), False), (mk_app("Lt", (i_, Const(0))), False),
                        (App("And", (mk_app("LtE", (Const(0), i_)), mk_app("Lt", (i_, mod_sym)))), True)}
-            decoder_total(ctx, "K2-total", "%s.%s" % (gname, meth_dec), o, b, allowed, (g.cls.mod.relpath, 0, meth_dec), outs)
+            decoder_total(ctx, "K2-total", "%s.%s" % (gname, meth_dec), o, b, allowed, (g.cls.mod.relpath, 0, meth_dec), outs, width=wf)
     # elements
     base = f.get("Base")
     e = ev.new_obj(base.cls, st)
@@ -179,7 +186,7 @@ def integer_group(ctx, world, ev):
         st.heap[e.oid][k] = g if v == g else a
     outs = ev.run_method(e, "to_bytes", [], st=st.fork())
     rets = session.rets(outs)
-    ctx.require(rets, "integer element to_bytes has no returning path")
+    ctx.total(rets, outs, "K-total", "integer element to_bytes has no returning path")
     wf = gm.attr_of(ev, g, "element_size_bytes", st)
     for o in rets:
         v = o.value
@@ -201,7 +208,7 @@ def integer_group(ctx, world, ev):
                          ("LtE", (i_, p)), ("Eq", (mk_app("pow", (i_, q, p)), Const(1))), ("NotEq", (mk_app("pow", (i_, q, p)), Const(1)))):
             allowed.add((mk_app(op, args), True))
             allowed.add((mk_app(op, args), False))
-        decoder_total(ctx, "K3-total", "%s bytes_to_element" % gname, o, b, allowed, None, outs)
+        decoder_total(ctx, "K3-total", "%s bytes_to_element" % gname, o, b, allowed, None, outs, width=wf)
         ok = has_eq(conds_of(o), mk_app("len", (b,)), wf)
         ctx.ob("K3-width", "%s bytes_to_element" % gname, ok, "decoder accepts exactly element_size_bytes bytes (C05 D1)" if ok else
                "decoder does not enforce the element width: not the inverse of the encoder")
@@ -221,7 +228,7 @@ def ed25519(ctx, world, ev):
     y = Sym("y", "int")
     outs = ev.run_method(G, "scalar_to_bytes", [y], st=world.static.fork())
     rets = session.rets(outs)
-    ctx.require(rets, "Ed25519 scalar_to_bytes has no returning path")
+    ctx.total(rets, outs, "K-total", "Ed25519 scalar_to_bytes has no returning path")
     for o in rets:
         ym = mk_app("Mod", (y, L))
         okc = {(App("And", (mk_app("LtE", (Const(0), ym)), mk_app("Lt", (ym, Const(2 ** 256))))), True), (mk_app("Lt", (ym, Const(2 ** 256))), True),
@@ -243,7 +250,7 @@ def ed25519(ctx, world, ev):
         i_ = mk_app("be2int", (mk_app("rev", (s,)),))
         allowed = {(mk_app("Eq", (mk_app("len", (s,)), Const(32))), True), (mk_app("NotEq", (mk_app("len", (s,)), Const(32))), False),
                    (mk_app("Lt", (i_, L)), True), (mk_app("GtE", (i_, L)), False), (mk_app("LtE", (Const(0), i_)), True)}
-        decoder_total(ctx, "K4-total", "Ed25519 bytes_to_scalar", o, s, allowed, o.site, outs)
+        decoder_total(ctx, "K4-total", "Ed25519 bytes_to_scalar", o, s, allowed, o.site, outs, width=Const(32))
     # ---- points: encoder on an element with symbolic *affine* coordinates
     st = world.static.fork()
     cf = [k for k, v in st.heap[base.oid].items() if isinstance(v, TupleV) and len(v.items) == 4]
@@ -253,7 +260,7 @@ def ed25519(ctx, world, ev):
     st.heap[e.oid][cf[0]] = TupleV([X, Y, Const(1), mk_app("Mult", (X, Y))])
     outs = ev.run_method(e, "to_bytes", [], st=st.fork())
     rets = session.rets(outs)
-    ctx.require(rets, "Ed25519 to_bytes has no returning path")
+    ctx.total(rets, outs, "K-total", "Ed25519 to_bytes has no returning path")
     inv1 = mk_app("pow", (Const(1), Const(Q - 2), Const(Q)))
 
     def affine(t):
@@ -265,9 +272,12 @@ def ed25519(ctx, world, ev):
         return t
     bit = Const(1 << 255)
     seen_set = seen_clear = False
+    tb = base.cls.lookup("to_bytes")
+    tbsite = (tb[2].mod.relpath, tb[1].lineno, tb[2].name + ".to_bytes") if tb and tb[0] == "func" else None
     for o in rets:
         v = o.value
         conds = conds_of(o)
+        o.site = o.site or tbsite
         ok = False
         why = show(v, maxdepth=6)
         if is_app(v, "rev") and is_app(v.args[0], "int2be") and v.args[0].args[1] == Const(32):
@@ -306,10 +316,42 @@ def ed25519(ctx, world, ev):
                 seen_clear = seen_clear or ok
             if par is not None:
                 why = "parity condition %s, value %s" % (par, show(val, maxdepth=5))
+        # total on curve points: beyond the parity of x no condition on the coordinates may remain on the encoding
+        # path (range assertions on the reduced affine y fold away; on an unreduced or mis-bounded value they do not)
+        def _parity(t):
+            if is_app(t, "Eq", "NotEq") and len(t.args) == 2 and any(isinstance(a, Const) and a.v in (0, 1) for a in t.args):
+                t = [a for a in t.args if not (isinstance(a, Const) and a.v in (0, 1))][0]
+            return (is_app(t, "BitAnd") and Const(1) in t.args) or (is_app(t, "Mod") and t.args[1] == Const(2))
+        extra = [show(t, maxdepth=4) + "=" + str(p) for (t, p) in conds
+                 if any(x_ in (X, Y) for x_ in subterms(t)) and not _parity(t) and not is_app(t, "isinstance")]
+        ctx.ob("K5-encoder-total", "Ed25519 point to_bytes", not extra, "every point is encoded: no condition on the coordinates besides the parity of x" if not extra else
+               "the point encoder also requires %s: some subgroup elements cannot be encoded" % extra, o.site)
         ctx.ob("K5-encoder", "Ed25519 point to_bytes", ok, "32-byte little-endian y with bit 255 = x & 1 (%s)" % why if ok else
                "point encoder path is not rev(int2be(y | (x&1) << 255, 32)): %s" % why, o.site)
     ctx.ob("K5-encoder", "both parities", seen_set and seen_clear, "both parity cases encode" if seen_set and seen_clear else
            "encoder does not distinguish x odd / x even by bit 255")
+    # ---- the encoded y and the parity are those of the *reduced* affine coordinates: with a projective Z the quotient
+    # x * inv(Z) is a field element only after reduction mod Q (the parity of an unreduced product is meaningless)
+    st2 = world.static.fork()
+    e2_ = ev.new_obj(base.cls, st2)
+    Zs, Ts = Sym("ez", "int"), Sym("et", "int")
+    st2.heap[e2_.oid][cf[0]] = TupleV([X, Y, Zs, Ts])
+
+    def norm_ok(t):
+        if isinstance(t, (Const, Sym)) or (is_app(t, "Mod") and t.args[1] == Const(Q)):
+            return True
+        if not any(x_ in (X, Y, Zs, Ts) for x_ in subterms(t)):
+            return True
+        if is_app(t, "Add", "BitOr", "BitAnd", "LShift", "RShift", "Eq", "NotEq", "Not", "bool", "Lt", "LtE") or (is_app(t, "Mod") and t.args[1] == Const(2)):
+            return all(norm_ok(a) for a in t.args)
+        return False
+    for o in session.rets(ev.run_method(e2_, "to_bytes", [], st=st2.fork())):
+        v = o.value
+        val = v.args[0].args[0] if is_app(v, "rev") and is_app(v.args[0], "int2be") else v
+        bad = [show(t, maxdepth=4) for t in [val] + [t for (t, p) in conds_of(o)] if not norm_ok(t)]
+        ctx.ob("K5-encoder-reduced", "Ed25519 point to_bytes (projective Z)", not bad,
+               "the encoded value and the parity are computed from affine coordinates reduced mod Q" if not bad else
+               "an affine coordinate is used unreduced: %s" % bad, o.site or tbsite)
     # ---- decoder agreement: flip iff parity(x0) != bit 255 of the little-endian integer
     b = Sym("b", "bytes")
     outs = ev.run_method(G, "bytes_to_element", [b], st=world.static.fork())
